@@ -150,7 +150,14 @@ def r_C28e(root):
                 for h in a.handlers:
                     ht = ast.unparse(h.type) if h.type is not None else "BaseException"
                     if not any(k in ht for k in ("TextXError", "Exception", "BaseException")): continue
-                    stores = {tg.attr for n in ast.walk(h) if isinstance(n, ast.Assign) for tg0 in n.targets for tg in ([tg0] if isinstance(tg0, ast.Attribute) else (tg0.elts if isinstance(tg0, (ast.Tuple, ast.List)) else [])) if isinstance(tg, ast.Attribute)}
+                    def _stores(scope):
+                        return {tg.attr for n in ast.walk(scope) if isinstance(n, ast.Assign) for tg0 in n.targets for tg in ([tg0] if isinstance(tg0, ast.Attribute) else (tg0.elts if isinstance(tg0, (ast.Tuple, ast.List)) else [])) if isinstance(tg, ast.Attribute)}
+                    stores = set()
+                    for hb in h.body: stores |= _stores(hb)
+                    # the fill-in may be extracted into a helper of the module that the handler calls
+                    for hc in [x for hb in h.body for x in ast.walk(hb) if isinstance(x, ast.Call)]:
+                        hd = [d for d in ast.walk(load(root, M)) if isinstance(d, ast.FunctionDef) and d.name == callee_name(hc)]
+                        if len(hd) == 1: stores |= _stores(hd[0])
                     if {"line", "col", "filename"} <= stores and any(isinstance(n, ast.Raise) for n in ast.walk(h)): ok = True
                 if ok: break
         ob("C28", "C28.e", M, "ReferenceResolver.resolve_one_step", "provider call %s under the location-filling handler" % " ".join(ast.unparse(c).split())[:60], ok)
